@@ -521,6 +521,12 @@ pub struct WorkerStateSnapshot {
     pub allocator: AllocatorSnapshot,
 }
 
+impl Drop for SimWorker {
+    fn drop(&mut self) {
+        self.state_ref.get_mut().verif_drop_self_reference();
+    }
+}
+
 impl SimWorker {
     /// MIRROR: the part of `internal::worker::rpc::run_worker` that builds the worker state from
     /// the registration response (no sockets, no background loops).
